@@ -666,6 +666,253 @@ def gen_sequences(ctx, thorough):
     return seqs, n_single, n_pairs
 
 
+# ------------------------------------------------------------------ configuration histories
+# The classification of a text is a function of the tokenizer's configuration (macros, productions)
+# only.  A history is a sequence of public-API calls (settings.set, Tokenizer(...) with variant
+# tables that keep the macro / production NAMES, default Tokenizer(), parseString); every tokenizer
+# built along the way must classify by ITS configuration, and the default tokenizer at the end must
+# give the classification known by construction.  Each history runs in its own forked process.
+DX_KEY = "DXImageTransform.Microsoft"
+DX_TEXT = "progid:DXImageTransform.Microsoft.Alpha(opacity=50)"
+HOPS = ["dx", "dxF", "def", "explicit", "copy", "v_nmchar", "v_num", "v_s", "v_noratio", "v_nohash", "parse", "nocomments"]
+VARIANT_PROBES = {      # by construction, for the variant dialects (independent of the reference below)
+    "v_nmchar": ("a1 #b2 3px2 @m4 f5(", [["IDENT", "a"], ["NUMBER", "1"], ["S", " "], ["HASH", "#b"], ["NUMBER", "2"],
+                                          ["S", " "], ["DIMENSION", "3px"], ["NUMBER", "2"], ["S", " "],
+                                          ["ATKEYWORD", "@m"], ["NUMBER", "4"], ["S", " "], ["IDENT", "f"],
+                                          ["NUMBER", "5"], ["CHAR", "("]]),
+    "v_num": ("1.5 .5px", [["NUMBER", "1"], ["CHAR", "."], ["NUMBER", "5"], ["S", " "], ["CHAR", "."], ["DIMENSION", "5px"]]),
+    "v_s": ("a\fb c", [["IDENT", "a"], ["CHAR", "\f"], ["IDENT", "b"], ["S", " "], ["IDENT", "c"]]),
+    "v_noratio": ("x 4/3)", [["IDENT", "x"], ["S", " "], ["NUMBER", "4"], ["CHAR", "/"], ["NUMBER", "3"], ["CHAR", ")"]]),
+    "v_nohash": ("#a1 b", [["CHAR", "#"], ["IDENT", "a1"], ["S", " "], ["IDENT", "b"]]),
+}
+HIST_TEXTS = ["a1 #b2 3px2 @m4 f5( \\44 6", "1.5 .5px -0.25% +7", "a\fb\tc\r\nd", "x 4/3) (4/3)", "#a1 #-x #\\41 b",
+              "@import url(a) \"s\\\nt\" /* c */ u+1? ~= -->", DX_TEXT, "x " + DX_TEXT + " y", "and( AND( \\61nd( f(",
+              "ur\\6C(a) UR\\4C( 'b' ) \\75\\72\\6c(c)", "'\\41\\\nb' \"\\e9\\\f0\""]
+
+
+def variant_config(op, MACROS, PRODUCTIONS):
+    """(macros, productions) arguments of Tokenizer() for an op; None = argument omitted"""
+    if op == "explicit":
+        return MACROS, PRODUCTIONS
+    if op == "copy":
+        return dict(MACROS), None
+    m = dict(MACROS)
+    if op == "v_nmchar":        # the CSS3 nmchar quoted in the cssproductions docstring (no digits in names)
+        m["nmchar"] = r"[_a-zA-Z-]|{nonascii}|{escape}"
+        return m, None
+    if op == "v_num":
+        m["num"] = r"[+-]?[0-9]+"
+        return m, None
+    if op == "v_s":
+        m["s"] = r"\t|\r|\n|\x20"
+        return m, list(PRODUCTIONS)
+    if op == "v_noratio":
+        return None, [q for q in PRODUCTIONS if q[0] != "RATIO"]
+    if op == "v_nohash":
+        return dict(MACROS), [q for q in PRODUCTIONS if q[0] != "HASH"]
+    return None, None
+
+
+_REF_CACHE = {}
+
+
+def ref_tokens(macros, productions, text):
+    """pure reference: the classification as a function of (macros, productions, text) only
+    (expand the macros, compile, first matching production wins, IDENT-'(' look-ahead, at-keyword table,
+    escape resolution) -- keyed on the full content of both tables"""
+    key = repr((sorted(macros.items()), [tuple(q) for q in productions]))
+    if key not in _REF_CACHE:
+        comp = []
+        for name, pat in productions:
+            while re.search(r"{[a-zA-Z][a-zA-Z0-9-]*}", pat):
+                pat = re.sub(r"{([a-zA-Z][a-zA-Z0-9-]*)}", lambda mo: "(?:%s)" % macros[mo.group(1)], pat)
+            comp.append((name, re.compile("(?:%s)" % pat, re.U)))
+        _REF_CACHE[key] = comp
+    comp = _REF_CACHE[key]
+    out, pos = [], 0
+    mo = comp[0][1].match(text, 0)
+    if mo:
+        out.append([comp[0][0], mo.group(0)])
+        pos = mo.end()
+    if text.startswith("@charset ", pos):
+        out.append(["CHARSET_SYM", "@charset "])
+        pos += 9
+    while pos < len(text):
+        c = text[pos]
+        if c in ",:;{}>[]":
+            out.append(["CHAR", c])
+            pos += 1
+            continue
+        for name, rx in comp[1:]:
+            mo = rx.match(text, pos)
+            if not mo:
+                continue
+            found = mo.group(0)
+            if name == "IDENT" and found.lower() != "and" and text[mo.end():mo.end() + 1] == "(":
+                continue
+            value = found
+            if name in ("DIMENSION", "IDENT", "STRING", "URI", "HASH", "COMMENT", "FUNCTION", "INVALID", "UNICODE-RANGE"):
+                value = resolve_scan(found)
+                if name in ("STRING", "INVALID"):
+                    value = re.sub(r"\\(\r\n|[\n\r\f])", "", value)
+            elif name == "ATKEYWORD":
+                sym = ATSYMS.get(normalize(resolve_scan(found)))
+                if sym:
+                    name = sym
+                elif found == "@charset" and text.startswith(" ", mo.end()):
+                    name, found, value = "CHARSET_SYM", found + " ", found + " "
+                else:
+                    value = resolve_scan(found)
+            out.append([name, value])
+            pos += len(found)
+            break
+        else:
+            return out + [["STUCK", text[pos:]]]
+    return out
+
+
+def run_history(args):
+    """executed in a fresh forked process: returns a list of failure dicts"""
+    ops, texts, expected_default = args
+    import css_parser
+    from css_parser import settings
+    import css_parser.cssproductions as CP
+    from css_parser.tokenize2 import Tokenizer
+    fails, built = [], []
+    import logging
+    css_parser.log.setLevel(logging.FATAL)
+    try:
+        for i, op in enumerate(ops):
+            if op == "dx":
+                settings.set(DX_KEY, True)
+            elif op == "dxF":
+                settings.set(DX_KEY, False)
+            elif op == "parse":
+                sheet = css_parser.parseString("a1 { width: 3px; color: rgb(1,2,3) }")
+                if len(sheet.cssRules) != 1:
+                    fails.append({"step": i, "what": "parseString lost the rule"})
+            else:
+                macros, prods = variant_config(op, CP.MACROS, CP.PRODUCTIONS)
+                kw = {}
+                if macros is not None:
+                    kw["macros"] = macros
+                if prods is not None:
+                    kw["productions"] = prods
+                if op == "nocomments":
+                    kw["doComments"] = False
+                tk = Tokenizer(**kw)
+                cfg = (dict(macros or CP.MACROS), [tuple(q) for q in (prods or CP.PRODUCTIONS)])
+                built.append((i, op, tk, cfg))
+                if op in VARIANT_PROBES:
+                    text, exp = VARIANT_PROBES[op]
+                    got = [[t[0], t[1]] for t in tk.tokenize(text)]
+                    if got != exp:
+                        fails.append({"step": i, "op": op, "what": "variant tokenizer does not classify by its own tables",
+                                      "text": text, "got": got, "expect": exp})
+        # every tokenizer built along the way still classifies by the configuration it was built with
+        for i, op, tk, cfg in built:
+            for text in texts:
+                got = [[t[0], t[1]] for t in tk.tokenize(text)]
+                exp = ref_tokens(cfg[0], cfg[1], text)
+                if op == "nocomments":
+                    exp = [t for t in exp if t[0] != "COMMENT"]
+                if got != exp:
+                    fails.append({"step": i, "op": op, "what": "tokenizer differs from the classification determined by its "
+                                  "(macros, productions)", "text": text, "got": got, "expect": exp})
+                    break
+        # the default tokenizer at the end: classification known by construction (DX lexemes by the reference)
+        tk = Tokenizer()
+        for text, exp in expected_default:
+            got = [[t[0], t[1]] for t in tk.tokenize(text)]
+            if got != exp:
+                fails.append({"step": len(ops), "op": "final default Tokenizer()", "what": "default tokenizer does not give the "
+                              "classification known by construction after this history", "text": text, "got": got, "expect": exp})
+                break
+        for text in texts:
+            got = [[t[0], t[1]] for t in tk.tokenize(text)]
+            exp = ref_tokens(CP.MACROS, [tuple(q) for q in CP.PRODUCTIONS], text)
+            if got != exp:
+                fails.append({"step": len(ops), "op": "final default Tokenizer()", "what": "default tokenizer differs from the "
+                              "classification determined by (MACROS, PRODUCTIONS)", "text": text, "got": got, "expect": exp})
+                break
+    except Exception as e:  # noqa
+        fails.append({"step": -1, "what": "history raised %s: %s" % (type(e).__name__, str(e)[:200])})
+    return fails
+
+
+def gen_histories(ctx, thorough):
+    hs = [[]]
+    for n in (1, 2, 3):
+        hs += [list(t) for t in itertools.product(HOPS, repeat=n)] if n < 3 else []
+    # depth 3: every history that contains a cache reset and a variant (the interesting interleavings), else sampled
+    d3 = [list(t) for t in itertools.product(HOPS, repeat=3)]
+    keep = [h for h in d3 if "dx" in h and any(o.startswith("v_") or o in ("copy", "explicit") for o in h)]
+    rest = [h for h in d3 if h not in keep]
+    hs += keep + ctx.rng.sample(rest, len(rest) if thorough else 250)
+    for _ in range(3000 if thorough else 200):
+        hs.append([ctx.rng.choice(HOPS) for _ in range(ctx.rng.randint(4, 7))])
+    return hs
+
+
+def shrink_history(ops, texts, expected_default):
+    def fails(h):
+        return bool(run_isolated([(h, texts, expected_default)])[0])
+    ops = list(ops)
+    changed = True
+    while changed and ops:
+        changed = False
+        for i in range(len(ops)):
+            cand = ops[:i] + ops[i + 1:]
+            if fails(cand):
+                ops, changed = cand, True
+                break
+    return ops
+
+
+def run_isolated(jobs, procs=6):
+    """one fresh forked process per history (maxtasksperchild=1): histories cannot leak into each other"""
+    import multiprocessing as mp
+    import css_parser  # noqa  (imported before forking: the children start from the state right after import)
+    with mp.get_context("fork").Pool(procs, maxtasksperchild=1) as pool:
+        return pool.map(run_history, jobs, chunksize=1)
+
+
+def history_stream(ctx, thorough):
+    rng = ctx.rng
+    # lexeme corpus for the final default tokenizer: representatives + a few random sequences (by construction)
+    pool = [l for l in pool_lexemes(rng) if l["kind"] != "delim"]
+    exp_default = []
+    for _ in range(40):
+        ls = join(rng, [rng.choice(pool) for _ in range(6)])
+        if ls and not features(ls) and "progid" not in "".join(l["text"] for l in ls):
+            exp_default.append(("".join(l["text"] for l in ls), expected(ls)))
+    for _ in range(25):
+        ls = join(rng, [rng.choice(GEN_TABLE)(rng) for _ in range(5)])
+        if ls and not features(ls):
+            exp_default.append(("".join(l["text"] for l in ls), expected(ls)))
+    hs = gen_histories(ctx, thorough)
+    res = run_isolated([(h, HIST_TEXTS, exp_default) for h in hs])
+    nbad = 0
+    for h, fl in zip(hs, res):
+        if not fl:
+            continue
+        nbad += 1
+        if nbad > 3:
+            continue
+        h2 = shrink_history(h, HIST_TEXTS, exp_default)
+        fl2 = run_isolated([(h2, HIST_TEXTS, exp_default)])[0] or fl
+        f0 = fl2[0]
+        ctx.violation("classification depends on the configuration history, not only on (macros, productions)",
+                      {"history": h2, "failure": f0, "texts": HIST_TEXTS, "expected_default": exp_default[:0]},
+                      sig_text="history=%s what=%s" % (",".join(h2), f0.get("what")))
+    return len(hs), nbad
+
+
+def replay_history(w):
+    fl = run_isolated([(w["history"], w.get("texts") or HIST_TEXTS, [tuple(x) for x in w.get("expected_default", [])])])[0]
+    return fl
+
+
 def known_witness_lexemes(w):
     return [dict(kind=k, text=t, ty=ty, val=v) for k, t, ty, v in w["lexemes"]]
 
@@ -713,6 +960,7 @@ def run(ctx):
             if reported < 40:
                 report(ctx, ls, got)
                 reported += 1
+    n_hist, n_hist_bad = history_stream(ctx, thorough)
     # stored witnesses of open findings are re-run
     for f in ctx.findings:
         if f.get("status") == "open" and "witness" in f:
@@ -753,6 +1001,9 @@ def run(ctx):
                 % (n_single, n_pairs),
         "lexeme_kind_counts": kinds,
         "cases_matching_known_finding_features": skipped,
+        "configuration_histories": n_hist,
+        "configuration_histories_failed": n_hist_bad,
+        "history_ops": HOPS,
         "samples": [[[l["kind"], l["text"]] for l in ls] for ls in seqs[n_single + n_pairs + 3:n_single + n_pairs + 7]],
         "disagreements_checked": len(texts) if binary else 0,
         "trusted_base": TRUSTED,
@@ -764,6 +1015,11 @@ def replay(ctx, path):
     bad = 0
     for v in rep.get("violations", []):
         w = v["witness"]
+        if "history" in w:
+            fl = replay_history(w)
+            print("replay history %s -> %s" % (w["history"], "holds" if not fl else json.dumps(fl[0])[:600]))
+            bad += bool(fl)
+            continue
         got = impl_tokens(w["text"])
         exp = [[x[2], x[3]] for x in w["lexemes"]] if "lexemes" in w else w.get("expect")
         ok = got == exp
